@@ -12,6 +12,7 @@ expressions.  Statements: straight-line assignments and `if` without loops.
 """
 import ast
 import os
+import re
 import sys
 
 REPO = os.environ.get("VERIF_REPO", "/repo")
@@ -37,11 +38,28 @@ def find_func(node, name):
     raise KernelError("function %s not found" % name)
 
 
+def conj(parts):
+    """conjunction of Coq bool terms with the constants folded"""
+    parts = [p for p in parts if p != "true"]
+    if "false" in parts:
+        return "false"
+    if not parts:
+        return "true"
+    return parts[0] if len(parts) == 1 else "(" + " && ".join(parts) + ")"
+
+
+def neg(c):
+    if c in ("true", "false"):
+        return "false" if c == "true" else "true"
+    return "(negb %s)" % c
+
+
 class Tr:
-    """expression translator with a renaming environment"""
+    """expression translator with a renaming environment (python source text of a name / attribute / test -> Coq term).
+    `and` / `or` are short-circuit: an operand after a constant-false (constant-true) one is not looked at."""
 
     def __init__(self, env):
-        self.env = env          # python source text of a name/attribute -> Coq term
+        self.env = env
 
     def key(self, e):
         return ast.unparse(e)
@@ -62,18 +80,40 @@ class Tr:
         if isinstance(e, ast.Call) and isinstance(e.func, ast.Name) and e.func.id in ("max", "min") and len(e.args) == 2 and not e.keywords:
             return "(Z.%s %s %s)" % (e.func.id, self.expr(e.args[0]), self.expr(e.args[1]))
         if isinstance(e, ast.IfExp):
-            return "(if %s then %s else %s)" % (self.bexpr(e.test), self.expr(e.body), self.expr(e.orelse))
+            c = self.bexpr(e.test)
+            if c in ("true", "false"):
+                return self.expr(e.body if c == "true" else e.orelse)
+            return "(if %s then %s else %s)" % (c, self.expr(e.body), self.expr(e.orelse))
         raise KernelError("expression not translatable: %s" % k)
 
     def bexpr(self, e):
         k = self.key(e)
         if k in self.env:
             return self.env[k]
+        if isinstance(e, ast.Constant) and isinstance(e.value, bool):
+            return "true" if e.value else "false"
         if isinstance(e, ast.BoolOp):
-            op = "&&" if isinstance(e.op, ast.And) else "||"
-            return "(" + (" %s " % op).join(self.bexpr(v) for v in e.values) + ")"
+            is_and = isinstance(e.op, ast.And)
+            stop = "false" if is_and else "true"
+            parts = []
+            for v in e.values:
+                c = self.bexpr(v)
+                if c == stop:                     # short circuit: the operands after it are never evaluated
+                    return stop if not parts else \
+                        ("(" + (" && " if is_and else " || ").join(parts + [stop]) + ")")
+                if c in ("true", "false"):
+                    continue                      # the neutral constant
+                parts.append(c)
+            if not parts:
+                return "true" if is_and else "false"
+            return parts[0] if len(parts) == 1 else "(" + (" && " if is_and else " || ").join(parts) + ")"
         if isinstance(e, ast.UnaryOp) and isinstance(e.op, ast.Not):
-            return "(negb %s)" % self.bexpr(e.operand)
+            return neg(self.bexpr(e.operand))
+        if isinstance(e, ast.IfExp):
+            c = self.bexpr(e.test)
+            if c in ("true", "false"):
+                return self.bexpr(e.body if c == "true" else e.orelse)
+            return "(if %s then %s else %s)" % (c, self.bexpr(e.body), self.bexpr(e.orelse))
         if isinstance(e, ast.Compare) and len(e.ops) == 1:
             a, b = e.left, e.comparators[0]
             op = e.ops[0]
@@ -89,137 +129,331 @@ def body_src(fn):
     return [s for s in fn.body if not (isinstance(s, ast.Expr) and isinstance(getattr(s, "value", None), ast.Constant))]
 
 
-def kernel_rate_limit(core):
-    """rate_limit.update: now = time(); old_next = self.next; self.next = max(now, self.next) + self.interval;
-       if now < old_next: sleep(old_next - now)"""
-    fn = find_func(find_class(core, "rate_limit"), "update")
-    assigns = {}
-    iff = None
-    for s in ast.walk(fn):
+def root_text(e):
+    """self.positions[partition] -> self.positions ; self.next -> self.next ; out -> out"""
+    while isinstance(e, ast.Subscript):
+        e = e.value
+    return ast.unparse(e)
+
+
+class Event:
+    def __init__(self, kind, pc, node, env, func=None):
+        self.kind, self.pc, self.node, self.env, self.func = kind, pc, node, env, func
+
+    def guard(self, skip=()):
+        return conj([c for c, origin in self.pc if origin not in skip])
+
+    def arg(self, i):
+        return Tr(self.env).expr(self.node.args[i])
+
+
+class Straight:
+    """Symbolic execution of loop-free integer code (the body of a kernel).
+
+    `env` maps the python source text of an lvalue (a local, self.<attr>, self.<attr>[<name>]), of a call such as
+    `time()` or of a test the kernel fixes, to a Coq term; integer lvalues listed in it are TRACKED: every assignment to
+    one is followed (in source order, through `if`s: the two branches are merged with a conditional).  A local that is
+    bound to an integer / boolean expression is resolved where it is used (its value at the time of the binding), so
+    introducing, renaming or removing such locals does not change what is generated.  Calls made as statements (and calls
+    bound to a local that is not arithmetic) are recorded as events together with the condition under which they are
+    reached; so are `return` / `continue` and the end of the body.  Anything else - loops other than the ones a kernel
+    asks to be recorded, writes to another element of a tracked container - raises KernelError."""
+
+    def __init__(self, what, env, helpers=None, record_loops=False, calls=()):
+        self.what = what
+        self.calls = tuple(calls)            # the calls the body may make as statements (anything else: KernelError)
+        self.env = dict(env)
+        self.tracked = set(k for k in env)
+        self.lets = []
+        self.events = []
+        self.helpers = helpers or {}
+        self.record_loops = record_loops
+        self.k = 0
+
+    def err(self, text, node=None):
+        where = " (line %d)" % node.lineno if node is not None and hasattr(node, "lineno") else ""
+        raise KernelError("%s: %s%s" % (self.what, text, where))
+
+    def let(self, base, term):
+        if re.fullmatch(r"[A-Za-z_][A-Za-z_0-9]*|\(-?\d+\)|true|false", term):
+            return term
+        self.k += 1
+        name = re.sub(r"[^A-Za-z0-9_]", "_", base).strip("_") + "_%d" % self.k
+        self.lets.append((name, term))
+        return name
+
+    def close(self, term):
+        """`let`s the term depends on, in order, then the term"""
+        need = set()
+
+        def visit(t):
+            for name, body in self.lets:
+                if name not in need and re.search(r"\b%s\b" % re.escape(name), t):
+                    need.add(name)
+                    visit(body)
+        visit(term)
+        return "".join("let %s := %s in\n  " % (n, b) for n, b in self.lets if n in need) + term
+
+    def event(self, kind, pc, node, func=None):
+        self.events.append(Event(kind, list(pc), node, dict(self.env), func))
+
+    def exits(self, s):
+        return any(isinstance(n, (ast.Return, ast.Continue, ast.Break, ast.Raise)) for n in ast.walk(s))
+
+    def value(self, e):
+        """-> ('Z' | 'bool', term) or None when the expression is not arithmetic"""
+        tr = Tr(self.env)
+        for kind, f in (("Z", tr.expr), ("bool", tr.bexpr)):
+            try:
+                return kind, f(e)
+            except KernelError:
+                pass
+        return None
+
+    def calls_in(self, e, pc):
+        for n in ast.walk(e):
+            if isinstance(n, ast.Call):
+                self.event("call", pc, n, ast.unparse(n.func))
+
+    def assign(self, tgt, v, pc, node):
+        key = ast.unparse(tgt)
+        if isinstance(tgt, ast.Name) or key in self.tracked:
+            if v is None:
+                if key in self.tracked:
+                    self.err("%s is assigned something that is not integer arithmetic" % key, node)
+                self.env.pop(key, None)            # a local that is not arithmetic: unknown from here on
+                return
+            self.env[key] = self.let(key, v[1])
+            return
+        if isinstance(tgt, (ast.Attribute, ast.Subscript)):
+            if any(root_text(ast.parse(k, mode="eval").body) == root_text(tgt) for k in self.tracked
+                   if "[" in k or "." in k):
+                self.err("assignment to %s, which overlaps a tracked location" % key, node)
+            return                                  # an attribute the kernel does not observe
+        self.err("assignment target %s" % key, node)
+
+    def stmt(self, s, pc):
+        if isinstance(s, ast.Pass) or (isinstance(s, ast.Expr) and isinstance(s.value, ast.Constant)):
+            return
         if isinstance(s, ast.Assign) and len(s.targets) == 1:
-            assigns[ast.unparse(s.targets[0])] = s.value
-        if isinstance(s, ast.If) and iff is None:
-            iff = s
-    for need in ("now", "old_next", "self.next"):
-        if need not in assigns:
-            raise KernelError("rate_limit.update: assignment to %s not found" % need)
-    if ast.unparse(assigns["now"]) != "time()":
-        raise KernelError("rate_limit.update: `now` is not time()")
-    if ast.unparse(assigns["old_next"]) != "self.next":
-        raise KernelError("rate_limit.update: `old_next` is not self.next")
-    tr = Tr({"now": "now", "self.next": "next", "self.interval": "interval", "old_next": "next"})
-    new_next = tr.expr(assigns["self.next"])
-    if iff is None:
-        raise KernelError("rate_limit.update: no `if` guarding the sleep")
-    cond = tr.bexpr(iff.test)
-    sleep = None
-    for s in ast.walk(iff):
-        if isinstance(s, ast.Call) and ast.unparse(s.func) == "gen.sleep" and len(s.args) == 1:
-            sleep = tr.expr(s.args[0])
-    if sleep is None:
-        raise KernelError("rate_limit.update: no gen.sleep(...) under the guard")
-    # order of statements: the emission must come after the (conditional) sleep
+            tgt = s.targets[0]
+            if isinstance(tgt, ast.Tuple):
+                if isinstance(s.value, ast.Tuple) and len(s.value.elts) == len(tgt.elts):
+                    vals = [self.value(v) for v in s.value.elts]     # the whole right-hand side first
+                    for v0 in s.value.elts:
+                        self.calls_in(v0, pc)
+                    for t1, v in zip(tgt.elts, vals):
+                        self.assign(t1, v, pc, s)
+                    return
+                self.calls_in(s.value, pc)
+                for t1 in tgt.elts:
+                    self.assign(t1, None, pc, s)
+                return
+            v = self.value(s.value)
+            if v is None:
+                self.calls_in(s.value, pc)
+            self.assign(tgt, v, pc, s)
+            return
+        if isinstance(s, ast.AugAssign):
+            bop = ast.BinOp(left=s.target, op=s.op, right=s.value)
+            v = self.value(ast.fix_missing_locations(ast.copy_location(bop, s)))
+            if v is None and ast.unparse(s.target) not in self.tracked and not isinstance(s.target, ast.Name):
+                return
+            self.assign(s.target, v, pc, s)
+            return
+        if isinstance(s, ast.Expr):
+            v = s.value
+            if isinstance(v, (ast.Yield, ast.Await)) and v.value is not None:
+                v = v.value
+            if isinstance(v, ast.Call):
+                f = ast.unparse(v.func)
+                if f.startswith("self.") and f[5:] in self.helpers and not v.args and not v.keywords:
+                    self.event("helper", pc, v, f)
+                    fn = self.helpers[f[5:]]
+                    if self.exits(fn):
+                        self.err("helper %s has an early exit" % f, s)
+                    self.run(body_src(fn), pc, top=False)
+                    return
+                if any(root_text(ast.parse(k, mode="eval").body) == root_text(v.func.value) for k in self.tracked
+                       if isinstance(v.func, ast.Attribute) and ("[" in k)):
+                    self.err("call of %s on a tracked container" % f, s)
+                if f not in self.calls:
+                    self.err("call of %s as a statement (the kernel expects only %s)" % (f, ", ".join(self.calls) or "none"), s)
+                self.event("call", pc, v, f)
+                return
+            self.err("statement %s" % ast.unparse(s), s)
+        if isinstance(s, ast.If):
+            c = Tr(self.env).bexpr(s.test)
+            if c in ("true", "false"):
+                self.run(list(s.body if c == "true" else s.orelse), pc, top=False)
+                return
+            saved = dict(self.env)
+            self.run(list(s.body), pc + [(c, s)], top=False)
+            e1 = self.env
+            self.env = dict(saved)
+            self.run(list(s.orelse), pc + [(neg(c), s)], top=False)
+            e2 = self.env
+            merged = {}
+            for k in list(e1) + [k for k in e2 if k not in e1]:
+                if k in e1 and k in e2:
+                    merged[k] = e1[k] if e1[k] == e2[k] else self.let(k, "if %s then %s else %s" % (c, e1[k], e2[k]))
+                elif k in self.tracked:
+                    self.err("%s is lost in one branch" % k, s)
+            self.env = merged
+            return
+        if isinstance(s, ast.For) and self.record_loops and not s.orelse:
+            self.event("for", pc, s, ast.unparse(s.iter))
+            return
+        self.err("statement form %s: %s" % (type(s).__name__, ast.unparse(s).split("\n")[0]), s)
+
+    def run(self, stmts, pc=(), top=True):
+        pc = list(pc)
+        for i, s in enumerate(stmts):
+            if isinstance(s, (ast.Return, ast.Continue)):
+                if not top:
+                    self.err("early exit inside a merged branch", s)
+                if isinstance(s, ast.Return) and s.value is not None:
+                    self.calls_in(s.value, pc)
+                self.event("return" if isinstance(s, ast.Return) else "continue", pc, s)
+                return
+            if isinstance(s, ast.If) and self.exits(s):
+                if not top:
+                    self.err("early exit inside a merged branch", s)
+                c = Tr(self.env).bexpr(s.test)
+                saved = dict(self.env)
+                for branch, lit in ((s.body, c), (s.orelse, neg(c))):
+                    if lit == "false":
+                        continue
+                    self.env = dict(saved)
+                    self.run(list(branch) + list(stmts[i + 1:]), pc + ([] if lit == "true" else [(lit, s)]), top=True)
+                return
+            self.stmt(s, pc)
+        if top:
+            self.event("end", pc, None)
+
+    def select(self, key):
+        """the final value of a tracked location over all the paths through the body"""
+        ends = [e for e in self.events if e.kind in ("end", "return", "continue")]
+        if not ends:
+            self.err("no path reaches the end")
+        vals = [(e.guard(), e.env.get(key)) for e in ends]
+        if any(v is None for _, v in vals):
+            self.err("%s is not defined on every path" % key)
+        term = vals[-1][1]
+        for g, v in reversed(vals[:-1]):
+            if v != term:
+                term = "(if %s then %s else %s)" % (g, v, term)
+        return term
+
+    def the(self, kind, func, what):
+        ev = [e for e in self.events if e.kind == kind and (func is None or e.func == func)]
+        if len(ev) != 1:
+            self.err("expected exactly one %s, found %d" % (what, len(ev)))
+        return ev[0]
+
+
+def kernel_rate_limit(core):
+    """rate_limit.update: the slot reservation `self.next = max(now, self.next) + self.interval`, the condition and the
+    length of the sleep, and the order sleep -> emission"""
+    fn = find_func(find_class(core, "rate_limit"), "update")
+    sx = Straight("rate_limit.update", {"time()": "now", "self.next": "next", "self.interval": "interval"},
+                  calls=("self._retain_refs", "gen.sleep", "self._emit", "self._release_refs"))
+    sx.run(body_src(fn))
+    sleep = sx.the("call", "gen.sleep", "gen.sleep(...)")
+    emit = sx.the("call", "self._emit", "self._emit(...)")
+    if len(sleep.node.args) != 1 or sleep.node.keywords:
+        raise KernelError("rate_limit.update: gen.sleep takes one argument")
+    if sx.events.index(emit) < sx.events.index(sleep) or emit.pc:
+        raise KernelError("rate_limit.update: the emission must be unconditional and come after the (conditional) sleep")
+    if sleep.guard() == "true":
+        raise KernelError("rate_limit.update: the sleep is unconditional")
     return ("(* streamz/core.py rate_limit.update *)\n"
-            "Definition gen_rl_next (now next interval : Z) : Z := %s.\n"
-            "Definition gen_rl_must_sleep (now next : Z) : bool := %s.\n"
-            "Definition gen_rl_sleep_for (now next : Z) : Z := %s.\n" % (new_next, cond, sleep))
+            "Definition gen_rl_next (now next interval : Z) : Z :=\n  %s.\n"
+            "Definition gen_rl_must_sleep (now next : Z) : bool :=\n  %s.\n"
+            "Definition gen_rl_sleep_for (now next : Z) : Z :=\n  %s.\n"
+            % (sx.close(sx.select("self.next")), sx.close(sleep.guard()), sx.close(sleep.arg(0))))
 
 
 def kernel_refcounter(core):
     cls = find_class(core, "RefCounter")
-    ret = find_func(cls, "retain")
-    rel = find_func(cls, "release")
-    rb = body_src(ret)
-    if len(rb) != 1 or not isinstance(rb[0], ast.AugAssign) or ast.unparse(rb[0].target) != "self.count":
-        raise KernelError("RefCounter.retain is not a single `self.count op= n`")
-    tr = Tr({"self.count": "count", "n": "n"})
-    op = {ast.Add: "+", ast.Sub: "-"}.get(type(rb[0].op))
-    if op is None:
-        raise KernelError("RefCounter.retain operator")
-    retain = "(count %s %s)" % (op, tr.expr(rb[0].value))
-    lb = body_src(rel)
-    if len(lb) != 2 or not isinstance(lb[0], ast.AugAssign) or not isinstance(lb[1], ast.If):
-        raise KernelError("RefCounter.release is not `self.count op= n; if ...: schedule cb`")
-    op2 = {ast.Add: "+", ast.Sub: "-"}.get(type(lb[0].op))
-    newc = "(count %s %s)" % (op2, tr.expr(lb[0].value))
-    # `self.count <= 0 and self.cb` (possibly written as nested ifs without else): the callback is present in our model
-    tr2 = Tr({"self.count": "c", "self.cb": "true"})
-    tests = []
-    node = lb[1]
-    while isinstance(node, ast.If):
-        if node.orelse:
-            raise KernelError("RefCounter.release: `else` branch in the scheduling condition")
-        tests.append(tr2.bexpr(node.test))
-        inner = body_src(node)
-        if len(inner) != 1:
-            raise KernelError("RefCounter.release: more than one statement under the scheduling condition")
-        node = inner[0]
-    fires = tests[0] if len(tests) == 1 else "(" + " && ".join(tests) + ")"
-    calls = [ast.unparse(c.func) for c in ast.walk(lb[1]) if isinstance(c, ast.Call)]
-    if "self.loop.add_callback" not in calls:
-        raise KernelError("RefCounter.release does not schedule the callback with loop.add_callback")
+    sr = Straight("RefCounter.retain", {"self.count": "count", "n": "n"})
+    sr.run(body_src(find_func(cls, "retain")))
+    if [e for e in sr.events if e.kind == "call"]:
+        raise KernelError("RefCounter.retain calls something")
+    # the callback is present in our model (`self.cb` is truthy)
+    sl = Straight("RefCounter.release", {"self.count": "count", "n": "n", "self.cb": "true"}, calls=("self.loop.add_callback",))
+    sl.run(body_src(find_func(cls, "release")))
+    cb = sl.the("call", "self.loop.add_callback", "self.loop.add_callback(...)")
+    if [ast.unparse(a) for a in cb.node.args] != ["self.cb"] or cb.node.keywords:
+        raise KernelError("RefCounter.release does not schedule self.cb")
+    if cb.env.get("self.count") != sl.select("self.count"):
+        raise KernelError("RefCounter.release: the count changes after the callback is scheduled")
     return ("(* streamz/core.py RefCounter.retain / release *)\n"
-            "Definition gen_rc_retain (count n : Z) : Z := %s.\n"
-            "Definition gen_rc_release (count n : Z) : Z * bool := let c := %s in (c, %s).\n" % (retain, newc, fires))
+            "Definition gen_rc_retain (count n : Z) : Z :=\n  %s.\n"
+            "Definition gen_rc_release (count n : Z) : Z * bool :=\n  %s.\n"
+            % (sr.close(sr.select("self.count")), sl.close("(%s, %s)" % (sl.select("self.count"), cb.guard()))))
+
+
+def option_cases(what, attr, coqname, build):
+    """a kernel over an attribute that is an int or None: `<attr> is not None` is decided per case, and in the None case
+    the attribute must not be read (python would raise; the source guards it by short-circuit)"""
+    some = build({attr: coqname, attr + " is not None": "true", attr + " is None": "false"})
+    none = build({attr + " is not None": "false", attr + " is None": "true"})
+    return "match %s with Some %s => %s | None => %s end" % (coqname, coqname, some, none)
 
 
 def kernel_slice(core):
     cls = find_class(core, "slice")
     upd = find_func(cls, "update")
     chk = find_func(cls, "_check_end")
-    iff = [s for s in body_src(upd) if isinstance(s, ast.If)]
-    if not iff:
-        raise KernelError("slice.update: no gate")
-    tr = Tr({"self.state": "state", "self.star": "start", "self.step": "step", "self.end": "stop"})
-    # the gate is either the test of the `if` guarding the emission or a local bound to it beforehand
-    guards = [s for s in iff if "self._emit" in ast.unparse(s)]
-    if len(guards) != 1:
-        raise KernelError("slice.update: expected exactly one `if` guarding the emission")
-    # an `if` before it may only be the early return of a finished slice
-    early = [s for s in iff if s is not guards[0]]
-    finished = "false"
-    if early:
-        if len(early) != 1 or body_src(upd).index(early[0]) != 0 or not (len(early[0].body) == 1 and isinstance(early[0].body[0], ast.Return)):
-            raise KernelError("slice.update: unexpected `if` besides the gate")
-        t0 = early[0].test
-        if not (isinstance(t0, ast.BoolOp) and isinstance(t0.op, ast.And) and len(t0.values) == 2
-                and ast.unparse(t0.values[0]) == "self.end is not None"):
-            raise KernelError("slice.update: early return condition is not `self.end is not None and ...`")
-        finished = tr.bexpr(t0.values[1])
-    iff = guards
-    gate_stmt, gate_expr = iff[0], iff[0].test
-    if isinstance(gate_expr, ast.Name):
-        binds = [s for s in body_src(upd) if isinstance(s, ast.Assign) and len(s.targets) == 1
-                 and ast.unparse(s.targets[0]) == gate_expr.id]
-        if len(binds) != 1:
-            raise KernelError("slice.update: gate variable %s is not bound exactly once" % gate_expr.id)
-        gate_stmt, gate_expr = binds[0], binds[0].value
-    if "_emit" not in ast.unparse(iff[0]):
-        raise KernelError("slice.update: the gate does not guard the emission")
-    gate = tr.bexpr(gate_expr)
-    incr = [s for s in body_src(upd) if isinstance(s, ast.AugAssign) and ast.unparse(s.target) == "self.state"]
-    if len(incr) != 1 or not isinstance(incr[0].op, ast.Add) or ast.unparse(incr[0].value) != "1":
-        raise KernelError("slice.update: state is not incremented by one")
-    # the gate must be evaluated on the position BEFORE the increment
-    idx_gate = body_src(upd).index(gate_stmt)
-    idx_inc = body_src(upd).index(incr[0])
-    if idx_inc < idx_gate:
-        raise KernelError("slice.update: state incremented before the gate is evaluated")
-    cb = [s for s in body_src(chk) if isinstance(s, ast.If)]
-    if len(cb) != 1:
-        raise KernelError("slice._check_end: shape")
-    t = cb[0].test
-    # `self.end is not None and self.state >= self.end`
-    if not (isinstance(t, ast.BoolOp) and isinstance(t.op, ast.And) and len(t.values) == 2
-            and ast.unparse(t.values[0]) == "self.end is not None"):
-        raise KernelError("slice._check_end: expected `self.end is not None and ...`, got %s" % ast.unparse(t))
-    done = tr.bexpr(t.values[1])
+    base = {"self.state": "state", "self.star": "start", "self.step": "step"}
+    out = {}
+
+    def run_update(extra):
+        sx = Straight("slice.update", dict(base, **extra), helpers={"_check_end": chk}, record_loops=True, calls=("self._emit",))
+        sx.run(body_src(upd))
+        emit = sx.the("call", "self._emit", "self._emit(...)")
+        check = sx.the("helper", "self._check_end", "call of self._check_end()")
+        # an early return before anything happened: the slice is finished
+        early = [e for e in sx.events if e.kind == "return" and sx.events.index(e) < sx.events.index(check)]
+        if len(early) > 1 or any(e.env.get("self.state") != "state" for e in early):
+            raise KernelError("slice.update: unexpected early return")
+        skip = set(o for e in early for _, o in e.pc)
+        finished = early[0].guard() if early else "false"
+        # the counter at the time of the emission = at the time of _check_end = at the end of every path that is not
+        # the early return (what it is, one more than before, is the bridge lemma bridge_slice_next)
+        nxt = emit.env.get("self.state")
+        if nxt is None or check.env.get("self.state") != nxt:
+            raise KernelError("slice.update: the counter differs between _check_end and the emission")
+        for e in sx.events:
+            if e.kind in ("end", "return") and e not in early and e.env.get("self.state") != nxt:
+                raise KernelError("slice.update: the counter is not advanced the same way on every path")
+        if out.setdefault("next", sx.close(nxt)) != sx.close(nxt):
+            raise KernelError("slice.update: the counter depends on whether self.end is None")
+        gate = sx.close(emit.guard(skip))
+        if out.setdefault("pass", gate) != gate:
+            raise KernelError("slice.update: the gate depends on whether self.end is None")
+        return sx.close(finished)
+
+    def run_check(extra):
+        sx = Straight("slice._check_end", dict(base, **extra), record_loops=True)
+        sx.run(body_src(chk))
+        if not [e for e in sx.events if e.kind == "for"]:
+            return "false"                       # no path detaches the node
+        loop = sx.the("for", "self.upstreams", "loop over self.upstreams")
+        if [ast.unparse(b) for b in loop.node.body] != ["%s._remove_downstream(self)" % ast.unparse(loop.node.target)]:
+            raise KernelError("slice._check_end: the loop does not detach the node")
+        if sx.select("self.state") != "state":
+            raise KernelError("slice._check_end changes the state")
+        return sx.close(loop.guard())
+
+    finished = option_cases("slice.update", "self.end", "stop", run_update)
+    done = option_cases("slice._check_end", "self.end", "stop", run_check)
     return ("(* streamz/core.py slice.update / _check_end *)\n"
-            "Definition gen_slice_pass (state start step : Z) : bool := %s.\n"
-            "Definition gen_slice_done (state : Z) (stop : option Z) : bool :=\n"
-            "  match stop with Some stop => %s | None => false end.\n"
-            "Definition gen_slice_finished (state : Z) (stop : option Z) : bool :=\n"
-            "  match stop with Some stop => %s | None => false end.\n" % (gate, done, finished))
+            "Definition gen_slice_pass (state start step : Z) : bool :=\n  %s.\n"
+            "Definition gen_slice_next (state : Z) : Z :=\n  %s.\n"
+            "Definition gen_slice_done (state : Z) (stop : option Z) : bool :=\n  %s.\n"
+            "Definition gen_slice_finished (state : Z) (stop : option Z) : bool :=\n  %s.\n" % (out["pass"], out["next"], done, finished))
 
 
 def kernel_kafka(sources):
@@ -228,81 +462,58 @@ def kernel_kafka(sources):
     # the `for partition in range(self.npartitions)` loop whose body computes the batch
     loop = None
     for n in ast.walk(fn):
-        if isinstance(n, ast.For) and ast.unparse(n.target) == "partition" and "get_watermark_offsets" in ast.unparse(n):
+        if isinstance(n, ast.For) and isinstance(n.target, ast.Name) and "get_watermark_offsets" in ast.unparse(n) \
+                and ast.unparse(n.iter) == "range(self.npartitions)":
             loop = n
     if loop is None:
         raise KernelError("poll_kafka: partition loop not found")
-    env = {"self.positions[partition]": "pos", "low": "low", "high": "high", "self.max_batch_size": "maxb",
-           "current_position": "pos", "lowest": "lowest"}
-    tr = Tr(env)
-    stmts = [s for s in loop.body if not isinstance(s, ast.Try)]
-    # 1. reset handling
-    reset_if = None
-    for s in stmts:
-        if isinstance(s, ast.If) and "auto.offset.reset" in ast.unparse(s.test):
-            reset_if = s
-    if reset_if is None:
-        raise KernelError("poll_kafka: auto.offset.reset handling not found")
-    inner = [s for s in ast.walk(reset_if) if isinstance(s, ast.If) and s is not reset_if]
-    if len(inner) != 1:
-        raise KernelError("poll_kafka: reset handling shape")
-    it = inner[0].test
-    if not (isinstance(it, ast.BoolOp) and isinstance(it.op, ast.And) and len(it.values) == 2
-            and "== 'latest'" in ast.unparse(it.values[0])):
-        raise KernelError("poll_kafka: reset condition shape: %s" % ast.unparse(it))
-    sentinel = tr.bexpr(it.values[1])
-    asg = [s for s in inner[0].body if isinstance(s, ast.Assign)]
-    if len(asg) != 1 or ast.unparse(asg[0].targets[0]) != "self.positions[partition]":
-        raise KernelError("poll_kafka: reset assignment shape")
-    reset_val = tr.expr(asg[0].value)
-    # 2. the clamp
-    seq = {}
-    ifs = []
-    for s in stmts:
-        if isinstance(s, ast.Assign) and len(s.targets) == 1:
-            seq[ast.unparse(s.targets[0])] = s.value
-        if isinstance(s, ast.If) and s is not reset_if:
-            ifs.append(s)
-    if "current_position" not in seq or ast.unparse(seq["current_position"]) != "self.positions[partition]":
-        raise KernelError("poll_kafka: current_position")
-    if "lowest" not in seq:
-        raise KernelError("poll_kafka: lowest")
-    tr1 = Tr({"current_position": "pos1", "low": "low"})
-    lowest = tr1.expr(seq["lowest"])
-    if len(ifs) != 2:
-        raise KernelError("poll_kafka: expected the clamp `if` and the emit `if`, found %d" % len(ifs))
-    tr2 = Tr({"high": "high", "lowest": "lowest", "self.max_batch_size": "maxb"})
-    clamp_test = tr2.bexpr(ifs[0].test)
-    ca = [s for s in ifs[0].body if isinstance(s, ast.Assign)]
-    if len(ca) != 1 or ast.unparse(ca[0].targets[0]) != "high":
-        raise KernelError("poll_kafka: clamp assignment")
-    clamp_val = tr2.expr(ca[0].value)
-    tr3 = Tr({"high": "high1", "lowest": "lowest"})
-    emit_test = tr3.bexpr(ifs[1].test)
-    app = [c for c in ast.walk(ifs[1]) if isinstance(c, ast.Call) and ast.unparse(c.func) == "out.append"]
-    if len(app) != 1 or not isinstance(app[0].args[0], ast.Tuple) or len(app[0].args[0].elts) != 6:
+    part = loop.target.id
+    # low, high = self.consumer.get_watermark_offsets(..) inside a try whose handlers skip the partition
+    body, marks = [], None
+    for s in loop.body:
+        if isinstance(s, ast.Try) and "get_watermark_offsets" in ast.unparse(s):
+            ok = len(s.body) == 1 and isinstance(s.body[0], ast.Assign) and len(s.body[0].targets) == 1 \
+                and isinstance(s.body[0].targets[0], ast.Tuple) and len(s.body[0].targets[0].elts) == 2 \
+                and all(isinstance(t, ast.Name) for t in s.body[0].targets[0].elts) and not s.orelse and not s.finalbody \
+                and all(len(h.body) == 1 and isinstance(h.body[0], ast.Continue) for h in s.handlers)
+            if not ok or marks is not None:
+                raise KernelError("poll_kafka: shape of the watermark query")
+            marks = [t.id for t in s.body[0].targets[0].elts]
+            continue
+        body.append(s)
+    if marks is None:
+        raise KernelError("poll_kafka: watermark query not found")
+    pos = "self.positions[%s]" % part
+    reset = "self.consumer_params['auto.offset.reset']"
+    env = {pos: "pos", marks[0]: "low", marks[1]: "high", "self.max_batch_size": "maxb",
+           # reset_latest: the key is present and holds 'latest'
+           "'auto.offset.reset' in self.consumer_params.keys()": "true", "'auto.offset.reset' in self.consumer_params": "true",
+           reset + " == 'latest'": "reset_latest", reset + " != 'latest'": "(negb reset_latest)"}
+    sx = Straight("poll_kafka", env, calls=("out.append",))
+    sx.run(body)
+    app = sx.the("call", "out.append", "out.append(..)")
+    a = app.node.args
+    if len(a) != 1 or not isinstance(a[0], ast.Tuple) or len(a[0].elts) != 6 or ast.unparse(a[0].elts[2]) != part:
         raise KernelError("poll_kafka: out.append((params, topic, partition, keys, lo, hi))")
-    lo = tr3.expr(app[0].args[0].elts[4])
-    hi = tr3.expr(app[0].args[0].elts[5])
-    pa = [s for s in ifs[1].body if isinstance(s, ast.Assign) and ast.unparse(s.targets[0]) == "self.positions[partition]"]
-    if len(pa) != 1:
-        raise KernelError("poll_kafka: position update")
-    newpos = tr3.expr(pa[0].value)
-    # 3. the commit offset
+    tr = Tr(app.env)
+    batch = "(if %s then Some (%s, %s) else None)" % (app.guard(), tr.expr(a[0].elts[4]), tr.expr(a[0].elts[5]))
+    if app.guard() == "true":
+        batch = "Some (%s, %s)" % (tr.expr(a[0].elts[4]), tr.expr(a[0].elts[5]))
+    # the commit offset
     commit = find_func(fn, "commit")
-    tp = [c for c in ast.walk(commit) if isinstance(c, ast.Call) and ast.unparse(c.func).endswith("TopicPartition")]
-    if len(tp) != 1 or len(tp[0].args) != 3:
+    unpack = [s for s in body_src(commit) if isinstance(s, ast.Assign) and isinstance(s.targets[0], ast.Tuple)
+              and ast.unparse(s.value) == "%s[1:]" % commit.args.args[0].arg]
+    if len(unpack) != 1 or len(unpack[0].targets[0].elts) != 5 or not isinstance(unpack[0].targets[0].elts[4], ast.Name):
+        raise KernelError("poll_kafka.commit: `topic, part_no, _, _, offset = _part[1:]`")
+    sc = Straight("poll_kafka.commit", {unpack[0].targets[0].elts[4].id: "hi"}, calls=("self.consumer.commit",))
+    sc.run([s for s in body_src(commit) if s is not unpack[0]])
+    tp = [e for e in sc.events if e.kind == "call" and e.func.endswith("TopicPartition")]
+    if len(tp) != 1 or len(tp[0].node.args) != 3:
         raise KernelError("poll_kafka.commit: TopicPartition(topic, part, offset)")
-    trc = Tr({"offset": "hi"})
-    commit_off = trc.expr(tp[0].args[2])
     return ("(* streamz/sources.py FromKafkaBatched.poll_kafka: per-partition body and commit offset *)\n"
-            "Definition gen_kb_clamp (pos low high maxb : Z) (reset_latest : bool) : option (Z * Z) * Z :=\n"
-            "  let pos1 := if reset_latest && %s then %s else pos in\n"
-            "  let lowest := %s in\n"
-            "  let high1 := if %s then %s else high in\n"
-            "  if %s then (Some (%s, %s), %s) else (None, pos1).\n"
-            "Definition gen_kb_commit_offset (hi : Z) : Z := %s.\n"
-            % (sentinel, reset_val, lowest, clamp_test, clamp_val, emit_test, lo, hi, newpos, commit_off))
+            "Definition gen_kb_clamp (pos low high maxb : Z) (reset_latest : bool) : option (Z * Z) * Z :=\n  %s.\n"
+            "Definition gen_kb_commit_offset (hi : Z) : Z :=\n  %s.\n"
+            % (sx.close("(%s, %s)" % (batch, sx.select(pos))), sc.close(tp[0].arg(2))))
 
 
 HEADER = ["(* GENERATED by harness/gen_kernels.py from the source under test on every run - do not edit *)",
